@@ -460,6 +460,7 @@ class Interp:
             "bisect": {"bisect_left": ("builtin", "bisect_left"), "bisect_right": ("builtin", "bisect_right"), "bisect": ("builtin", "bisect_right"),
                        "insort_left": ("builtin", "insort_left"), "insort_right": ("builtin", "insort_right"), "insort": ("builtin", "insort_right")},
             "copy": {"copy": ("builtin", "copy")},
+            "types": {"MappingProxyType": ("builtin", "mappingproxy")},
             "warnings": {"warn": ("builtin", "noop")},
             "math": {"inf": float("inf"), "floor": __import__("math").floor, "ceil": __import__("math").ceil},
             "string": {k: getattr(__import__("string"), k) for k in ("digits", "ascii_letters", "ascii_lowercase", "ascii_uppercase", "hexdigits", "punctuation", "whitespace")},
@@ -2662,6 +2663,11 @@ class Interp:
 
     def b_insort_right(self, a, x, lo=0, hi=None, key=None):
         a.insert(self._bisect(a, self.call(key, [x], {}) if key is not None else x, lo, hi, key, True), x)
+
+    def b_mappingproxy(self, d):
+        if not isinstance(d, dict):
+            raise AnalysisError("MappingProxyType of a non-dict")
+        return d        # read-only view: reads behave like the dict (writes through the proxy would be a TypeError in CPython)
 
     def b_noop(self, *a, **k):
         return None
